@@ -204,7 +204,7 @@ def discharge(pc, goal, timeout_ms, stats, use_cvc5=True, both=False, inc=None):
             r, s = attempt(timeout_ms)
     if r == z3.unsat:
         if both:
-            r2 = cvc5_check(s.to_smt2(), timeout_ms)
+            r2 = cvc5_check(s.to_smt2(), min(timeout_ms, 30000))
             if r2 == "sat":
                 return "unknown", None, "z3-unsat/cvc5-sat DISAGREE"
             return "proved", None, backend + "+cvc5" if r2 == "unsat" else backend
@@ -271,7 +271,9 @@ def run_case(cid, case_id, tier="quick", known_regions=None, seed=0):
     c = REGISTRY[cid]
     case = case_value(c, case_id)
     timeout = 20000 if tier == "quick" else 90000
-    budget_s = getattr(c, "budget_s", 300 if tier == "quick" else 1800)
+    budget_s = getattr(c, "budget_s", 300)
+    if tier != "quick":
+        budget_s = max(1800, 4 * budget_s)      # both back ends on every obligation
     both = tier == "thorough"
     stats = Stats()
     stats.queries = 0
